@@ -6,9 +6,9 @@ open DPL DPL.ScopeIR
 
 def genPop : Stmt := (.seq (.setLoc .clsDefault) (.seq (.setCls .none) (.ret .loc)))
 
-def genSet : Stmt := (.seq (.setOld .callPop) (.seq (.setCls .self) (.ret .self)))
+def genSet : Stmt := (.seq (.setCls .self) (.ret .self))
 
-def genEnter : Stmt := (.ret (.callSet .self))
+def genEnter : Stmt := (.seq (.setOld .callPop) (.seq (.eval (.callSet .self)) (.ret .self)))
 
 def genExit : Stmt := (.seq (.eval .callPop) (.seq (.ifNotNone .selfOld (.eval (.callSet .selfOld))) .delOld))
 
